@@ -310,8 +310,9 @@ INTERP_ENTRIES = ["spline_maps", "num_ai", "spline_bas", "spline_bas_deriv", "co
 def st_interpT(draw):
     T = draw(st.sampled_from(G.TEAMS_C10))
     n1 = draw(st.sampled_from([0, 1, 2]))
-    lay = draw(G.st_synth_layout(max_natm=3, max_l=3, max_nexp=2, max_nrad=4, lebedev=[6, 14], min_l=1 if n1 else 0,
-                                 min_l_first=1))
+    lmax0 = n1 == 0 and draw(st.integers(0, 7)) == 0     # s-only basis: interpolator nlm = 1
+    lay = draw(G.st_synth_layout(max_natm=3, max_l=0 if lmax0 else 3, max_nexp=2, max_nrad=4, lebedev=[6, 14],
+                                 min_l=1 if n1 else 0, min_l_first=0 if lmax0 else 1))
     sizes = [s for s in G.team_sizes(T) if 1 <= s <= 300]
     return {"entry": draw(st.sampled_from(INTERP_ENTRIES)), "T": T, "layout": lay, "n0": draw(st.integers(0 if n1 else 1, 3)),
             "n1": n1, "nrad": draw(st.sampled_from([2, 3, 4, 5, 7, 9, 16, 17, 33])), "aparam": 0.03,
@@ -753,7 +754,7 @@ def st_e2e(draw):
 E2E_RTOL = 1e-10
 
 
-@subcheck("C10", "end_to_end", st_e2e, quick=32, thorough=480, max_shards=8, shrink=False,
+@subcheck("C10", "end_to_end", st_e2e, quick=24, thorough=480, max_shards=8, shrink=False,
           rule="CiderNumInt.nr_rks / nr_uks of a synthesised model (semilocal, NLDF j/i/ij/k with Gaussian or spline plan, "
                "SDMX with and without vector terms) on H2/HF/H2O, sto-3g/6-31g, grid level 0-1, perturbed initial-guess "
                "density matrix, each evaluated in three fresh processes with OMP_NUM_THREADS = 1, 4, 16 (PySCF's own "
